@@ -81,21 +81,31 @@ def gen_cases(rng, tier):
             items.append(["KV", nm.decode(), str(rng.choice(vals))])
         for _ in range(rng.choice([0, 0, 1, 2, 4])):
             k = rng.random()
-            if k < 0.3:
+            if k < 0.2:
                 it = ["Junk", rng.choice(["", " ", "garbage", "\t", "no colon here", "a b c"])]
-            elif k < 0.6:
-                it = ["BadKV", rng.choice(["foo", "rchar", "x_y"]), rng.choice(["bar", "nan", "x"])]
+            elif k < 0.5:
+                # right-hand sides int() rejects, some of them embedding a well-formed looking fragment
+                it = ["BadKV", rng.choice(["foo", "rchar", "x_y", "syscw", "wchar"]),
+                      rng.choice(["bar", "nan", "x", "999 (partial)", "7x", "0x10", "1 2", "5;", "--3", "1__0", "(1)"])]
+            elif k < 0.65:
+                it = ["Bad3", rng.choice(["wchar", "rchar", "foo"]), rng.choice(["5", "", "x", "12 "]), rng.choice(["6", "y", "7 8"])]
+            elif k < 0.8:
+                # a longer name that merely ends with a known one is another name
+                it = ["KV", rng.choice(["old read_bytes", "x rchar", "tes syscr", "my wchar"]), str(rng.choice(vals))]
             else:
                 it = ["KV", rng.choice(names).decode(), str(rng.choice(vals))]
             items.insert(rng.randint(0, len(items)), it)
-        cls = "io" + ("-junk" if any(i[0] == "Junk" for i in items) else "") + ("-badkv" if any(i[0] == "BadKV" for i in items) else "")
+        cls = ("io" + ("-junk" if any(i[0] == "Junk" for i in items) else "") + ("-badkv" if any(i[0] == "BadKV" for i in items) else "")
+               + ("-bad3" if any(i[0] == "Bad3" for i in items) else "") + ("-longname" if any(i[0] == "KV" and " " in i[1] for i in items) else ""))
         cases.append({"kind": "io", "cls": cls if items else "trivial", "items": items})
     for _ in range(n_io // 3):
         content = rng.choice([b"", b"\n", b"rchar: 1\nwchar 2\n", b"rchar: 1: 2\n", b"rchar:  5\n", b"rchar: 5 \n  wchar: 6\n",
                               b"rchar: -5\nwchar: +6\nsyscr: 1_0\nsyscw: 4\nread_bytes: 5\nwrite_bytes: 6\n",
                               b"rchar: 1\nwchar: 2\nsyscr: 3\nsyscw: 4\nread_bytes: 5\nwrite_bytes: 6",
                               b": 5\nrchar: 1\nwchar: 2\nsyscr: 3\nsyscw: 4\nread_bytes: 5\nwrite_bytes: 6\n",
-                              b"rchar: 0x10\n", b"rchar: 1\r\nwchar: 2\r\n", b"a: b: c\n", b"rchar:5\n"])
+                              b"rchar: 0x10\n", b"rchar: 1\r\nwchar: 2\r\n", b"a: b: c\n", b"rchar:5\n",
+                              b"tes: 77 syscr: 1\nrchar: 1\nwchar: 2\nsyscr: 3\nsyscw: 4\nread_bytes: 5\nwrite_bytes: 6\n",
+                              b"rchar: 1\nwchar: 2\nsyscr: 3\nsyscw: 4\nread_bytes: 5\nwrite_bytes: 6\nrchar: 999 (partial)\nsyscw: 7x\n"])
         cases.append({"kind": "rawio", "cls": "rawio", "content": content.hex()})
     return cases
 
@@ -104,7 +114,9 @@ def gen_cases(rng, tier):
 def _paths(e, base):
     """(raw link target, exists_cut, isreg of the cleaned path) for an entry; base = directory of target files."""
     k, fd = e["kind"], e["fd"]
-    f = "%s/t%d" % (base, fd)
+    # file names end in characters of " (deleted)" for some descriptors, so that a suffix removal
+    # done by character set (str.rstrip) instead of by length shows
+    f = "%s/t%d%s" % (base, fd, ["", "", "_let", "d", ".old", " (x)", "_deleted", "e"][fd % 8])
     if k == "reg":
         return f, False, True
     if k == "reg_space":
@@ -151,13 +163,15 @@ def coq_term(case):
         return "run_table %s %s" % (G.lst(es), G.bo(case["alive"]))
     if k == "rawinfo":
         ent = "(Build_fdent %s (LTarget %s false) IsReg (FContent %s))" % (
-            G.by(str(case["fd"])), G.by(BASE + "/t%d" % case["fd"]), G.by(bytes.fromhex(case["content"])))
+            G.by(str(case["fd"])), G.by(_paths({"kind": "reg", "fd": case["fd"]}, BASE)[0]), G.by(bytes.fromhex(case["content"])))
         return "run_raw [%s] true" % ent
     if k == "io":
         its = []
         for it in case["items"]:
             if it[0] == "Junk":
                 its.append("(Junk %s)" % G.by(it[1]))
+            elif it[0] == "Bad3":
+                its.append("(Bad3 %s %s %s)" % (G.by(it[1]), G.by(it[2]), G.by(it[3])))
             else:
                 its.append("(%s %s %s)" % (it[0], G.by(it[1]), G.by(it[2])))
         return "run_io %s %s" % (G.bo(STRICT_IO), G.lst(its))
